@@ -56,6 +56,7 @@ import (
 
 	"github.com/anishathalye/porcupine"
 	"github.com/lmorg/murex/utils/cache"
+	"github.com/lmorg/murex/utils/cache/cachedb"
 	"github.com/lmorg/murex/utils/simrt"
 	"github.com/lmorg/murex/utils/sqlite3"
 	"modernc.org/sqlite"
@@ -74,6 +75,20 @@ type c30W struct {
 	Tasks  [][]c30Op `json:"tasks"`
 	Legacy bool      `json:"legacy,omitempty"` // the db file exists already, with the tables as murex created them up to now (key STRING, value STRING): an upgrade
 	VK     string    `json:"vk,omitempty"`     // kind of every value of the case: "" the string "v<id>" | "u64" the number 2^63+id | "f" the number id+0.5
+	EvNS   uint32    `json:"evns,omitempty"`   // non-zero: the namespaces are two user-event namespaces that differ in one non-word character only
+}
+
+// c30Namespace: the namespace an operation's index stands for. With EvNS the case uses two per-event
+// namespaces of the kind murex builds as "preview_event:<user event name>", differing in non-word
+// characters only. The names are fixed and initialised once per process (initC30), so that every process
+// has the same set of namespaces (Trim and Clear walk all of them).
+var c30EvNS = []string{cache.PREVIEW_EVENT + ":git-log", cache.PREVIEW_EVENT + ":git_log"}
+
+func c30Namespace(w *c30W, i int) string {
+	if w.EvNS != 0 {
+		return c30EvNS[i%2]
+	}
+	return c30NS[i%len(c30NS)]
 }
 
 var c30NS = []string{cache.MAN_SUMMARY, cache.HINT_SUMMARY, cache.MAN_FLAGS}
@@ -120,6 +135,10 @@ func initC30(j *Job) {
 	tp := filepath.Join(j.Tmp, "c30-template.db")
 	cache.SetPath(tp)
 	cache.InitCache()
+	// murex reads a per-event namespace before it ever writes it, which is what creates it
+	var none string
+	cache.Read(c30EvNS[0], "\x00", &none)
+	cache.Read(c30EvNS[1], "\x00", &none)
 	c30Tmpl, _ = os.ReadFile(tp)
 	lp := filepath.Join(j.Tmp, "c30-legacy.db")
 	if db, err := sql.Open(sqlite3.DriverName(), "file:"+lp); err == nil {
@@ -345,6 +364,14 @@ func genC30(r *Rand, tier string) Case {
 			break
 		}
 	}
+	if class != "disk" && r.Intn(5) == 0 {
+		w.EvNS = 1
+		for t := range w.Tasks {
+			for i := range w.Tasks[t] {
+				w.Tasks[t][i].NS %= 2
+			}
+		}
+	}
 	sc := defaultSched(r, 3*total+10, 20000, 0) // observed: about 3 decisions per operation, 87 per 3-day jump; budget >= 20x the largest ok run
 	if class == "conc" && r.Intn(3) == 0 {
 		sc.JumpProb = 0.01 // scheduler-driven clock jumps (1 us .. 10 s) between any two decisions
@@ -415,6 +442,13 @@ func runC30(c *Case, e *Env) Outcome {
 	}
 	cache.SetPath(path)
 	cache.InitCache()
+	if w.EvNS != 0 {
+		// the in-memory maps of these two namespaces are not replaced by InitCache: empty them (and make
+		// sure their tables exist in this case's database, whatever file it started from)
+		cachedb.CreateTable(c30EvNS[0])
+		cachedb.CreateTable(c30EvNS[1])
+		cache.Clear(context.Background())
+	}
 
 	var hist []c30Ev
 	watch := &c30Watch{e: e, hist: &hist}
@@ -429,7 +463,7 @@ func runC30(c *Case, e *Env) Outcome {
 			what := fmt.Sprintf("operation %d of task %d (%s ns%d %q)", oi, ti, op.Op, op.NS, op.Key)
 			watch.inflight.Store(&what)
 			ev.Call, ev.T0 = simrt.Stamp(), time.Now()
-			ns := c30NS[op.NS%len(c30NS)]
+			ns := c30Namespace(&w, op.NS)
 			switch op.Op {
 			case "write":
 				ev.TTL = ev.T0.Add(time.Duration(op.Ms) * time.Millisecond)
